@@ -289,6 +289,38 @@ def line_break_and_odd_value_cases():
     return out
 
 
+def accept_all_member_cases():
+    """accept-everything members (bare `schema.any`, `any(any)`, an alias of it, a relaxed empty dict) at EVERY position of a
+    dict / element list / union, against values that fail somewhere else (extra key, missing key before and after the member,
+    wrong sibling) — each pair appears several times in a row, so an answer that depends on what was validated before shows"""
+    out = []
+    alls = [lambda: schema.any, lambda: schema.any(schema.any), lambda: schema.alias("Anything", schema.any), lambda: schema.any(schema.any, schema.int)]
+    for mk in alls:
+        for pos in range(3):
+            def keys():
+                ks = [("id", schema.int), ("name", schema.str)]
+                ks.insert(pos, ("payload", mk()))
+                return dict(ks)
+            vals = [{"id": 1, "name": "n", "payload": object}, {"id": 1, "name": "n", "payload": [1], "extra": 0}, {"id": 1, "payload": None},
+                    {"name": "n", "payload": {}}, {"payload": 1}, {"id": "x", "name": 2, "payload": 3, "e1": 1, "e2": 2}, {"id": 1, "name": "n"}, {}]
+            for v in vals:
+                for _ in range(2):
+                    try:
+                        out.append(ValCase(schema.dict(keys()), dict(v), "accept-all-member"))
+                        out.append(ValCase(schema.list([schema.dict(keys()), mk()]), [dict(v), 42], "accept-all-member"))
+                    except Exception:  # noqa: BLE001
+                        pass
+        for v in (42, None, [1], {"a": 1}, "s"):
+            try:
+                out.append(ValCase(mk(), v, "accept-all-member"))
+                out.append(ValCase(schema.list(mk()), [v, v], "accept-all-member"))
+                out.append(ValCase(schema.list([mk(), schema.int]), [v], "accept-all-member"))
+                out.append(ValCase(schema.list([mk(), schema.int]), [v, 1, 2], "accept-all-member"))
+            except Exception:  # noqa: BLE001
+                pass
+    return out
+
+
 def touchy_cases():
     """(schema, value) cases whose nested validation raises from user code. The real validate may raise (not this
     family's business); whatever errors it RETURNS must still be true and located."""
